@@ -66,6 +66,19 @@ def handleSpecInv (args : List Sx) : String :=
     | _, _, _ => "bad-op"
   | _ => "bad-op"
 
+/-- `c13.invranges cfg matcher inp` → the line ranges `s:e …` of the matches the inverted scan finds (`invRanges`). -/
+def handleInvRanges (args : List Sx) : String :=
+  match args with
+  | [cfg, m, inp] =>
+    match parseCfg cfg, parseMatcher m, inp.bytes? with
+    | some cfg, some mk, some inp =>
+      let show_ := fun (ms : List Matcher.Span) => " ".intercalate (ms.map fun sp => s!"{sp.s}:{sp.e}")
+      let r0 := show_ (invRanges cfg (mk inp false) inp)
+      let r1 := show_ (invRanges cfg (mk inp true) inp)
+      if r0 == r1 then (if r0.isEmpty then "-" else r0) else "table-miss"
+    | _, _, _ => "bad-op"
+  | _ => "bad-op"
+
 /-- `c13.matches matcher inp` → the successive matches `s:e …` of the spec's iteration. -/
 def handleMatches (args : List Sx) : String :=
   match args with
@@ -91,6 +104,7 @@ def handle (cmd : String) (args : List Sx) : String :=
   | "c13.sane" => handleSane args
   | "c13.invsame" => handleInvSame args
   | "c13.specinv" => handleSpecInv args
+  | "c13.invranges" => handleInvRanges args
   | "c13.path" => handlePath args
   | _ => "bad-op"
 
